@@ -397,10 +397,31 @@ def run(ctx):
     run_property(ctx, "freq", freq_cases, body_freq, ctx.pick(800, 12000))
     run_property(ctx, "cv", cv_cases, body_cv, n)
     run_property(ctx, "has", has_cases, body_has, n)
+    # the weight vector of paths as the moves hand them back (built piecewise: pasted, reversed, extended), not only of
+    # hand-made ones: C09's wire-fencing machinery run through run_md, whose weight-vector clause is C10's definition
+    from checks import C09
+
+    run_property(ctx, "moves", wf_move_cases, C09.body_wf, ctx.pick(1500, 20000))
+
+
+@st.composite
+def wf_move_cases(draw):
+    from checks import C09
+
+    c = draw(C09.wf_cases())
+    c["via_run_md"] = True
+    if c.get("other_moves") is None:
+        c["other_moves"] = draw(st.lists(st.sampled_from(["sh", "wf"]), min_size=4, max_size=4))
+    return c
 
 
 def replay(ctx, data):
-    strat, body = PARTS[data["part"]]
+    if data["part"] == "moves":
+        from checks import C09
+
+        strat, body = wf_move_cases, C09.body_wf
+    else:
+        strat, body = PARTS[data["part"]]
     try:
         body(ctx, data["case"])
     except Violation as v:
